@@ -210,7 +210,7 @@ fn gen_case(tape: Vec<u8>) -> Case {
         if let Some(sname) = with_members.get(u.below(with_members.len().max(1))) {
             let def = model.graph.get(sname).unwrap();
             let mi = u.below(def.members.len());
-            let undefined = ["Undefined", "uint7", "bytes33", "int", "uint", "Bytes32", "address payable", "bytes0", "uint264", "string ", "uint0256", "bytes032", "int08", "uint008"][u.below(14)];
+            let undefined = ["Undefined", "uint7", "bytes33", "int", "uint", "Bytes32", "address payable", "bytes0", "uint264", "string ", "uint0256", "bytes032", "int08", "uint008", "bytes4294967298", "bytes288", "bytes65568", "uint4294967552", "bytes18446744073709551648"][u.below(19)];
             let suffix = ["", "[]", "[2]", "[02]", "[+1]"][u.below(5)];
             if let Some(J::Arr(members)) = at(&mut doc, &[Step::Key("types".into()), Step::Key((*sname).clone())]) {
                 if let Some(J::Obj(kv)) = members.get_mut(mi) {
@@ -267,7 +267,12 @@ fn gen_case(tape: Vec<u8>) -> Case {
         let parent_ty = if parent_path.len() == 1 { Some(Ty::Struct(model.primary.clone())) } else { positions.iter().find(|q| q.path == parent_path).map(|q| q.ty.clone()) };
         if let Some(Ty::Struct(sname)) = parent_ty {
             let signed = matches!(pos.ty, Ty::Int(_));
-            let bad = if signed { ["int0", "int00", "int4", "int264", "int7"][u.below(5)] } else { ["uint0", "uint00", "uint4", "uint264", "uint1"][u.below(5)] };
+            // (the long ones are a valid width plus 2^8, 2^16, 2^32 or 2^64: a width narrowed with `as` wraps onto it)
+            let bad = if signed {
+                ["int0", "int00", "int4", "int264", "int7", "int4294967304", "int65544", "int18446744073709551624", "int512"][u.below(9)]
+            } else {
+                ["uint0", "uint00", "uint4", "uint264", "uint1", "uint4294967552", "uint65792", "uint512", "uint18446744073709551872", "uint16777472"][u.below(10)]
+            };
             let instances: Vec<Vec<Step>> = positions
                 .iter()
                 .filter(|q| q.path.last() == Some(&Step::Key(member.clone())) && q.path.len() >= 2 && {
